@@ -524,6 +524,32 @@ theorem al_candidates_on_both (a b cx cy l0x l0y l1x l1y s : K) (ha : a ≠ 0) (
   · field_simp
     linear_combination (-c) * hDd + D * hc
 
+/-- **Vertical line** (`p[1].real == 0`): with `s² =` the traced discriminant `1 − c²/a²`, both candidates
+`(c, ±b·s) + centre` lie on the ellipse and on the line `x = lx`. -/
+theorem alv_candidates_on_both (a b cx cy lx l0y l1y s : K) (ha : a ≠ 0) (hb : b ≠ 0)
+    (hs : s * s = Gen.C11.alv_disc a b cx cy lx l0y l1y) :
+    ((Gen.C11.alv_p1x a b cx cy lx l0y l1y s - cx) ^ 2 / a ^ 2 + (Gen.C11.alv_p1y a b cx cy lx l0y l1y s - cy) ^ 2 / b ^ 2 = 1 ∧
+     Gen.C11.alv_p1x a b cx cy lx l0y l1y s = lx) ∧
+    ((Gen.C11.alv_p2x a b cx cy lx l0y l1y s - cx) ^ 2 / a ^ 2 + (Gen.C11.alv_p2y a b cx cy lx l0y l1y s - cy) ^ 2 / b ^ 2 = 1 ∧
+     Gen.C11.alv_p2x a b cx cy lx l0y l1y s = lx) := by
+  simp only [Gen.C11.alv_disc] at hs
+  simp only [Gen.C11.alv_p1x, Gen.C11.alv_p1y, Gen.C11.alv_p2x, Gen.C11.alv_p2y]
+  have hs' : s * s * (a * a) = a * a - (lx - cx) * (lx - cx) := by
+    rw [hs]; field_simp
+  refine ⟨⟨?_, by ring⟩, ⟨?_, by ring⟩⟩
+  · field_simp
+    linear_combination (b ^ 2) * hs'
+  · field_simp
+    linear_combination (b ^ 2) * hs'
+
+/-- the tangent case of the vertical branch (`discriminant == 0`, `y_values = [0]`): the single candidate
+`(c, 0) + centre` is on the ellipse. -/
+theorem alv_tangent_on_ellipse (a b cx cy lx l0y l1y : K) (ha : a ≠ 0) (hb : b ≠ 0)
+    (h0 : Gen.C11.alv_disc a b cx cy lx l0y l1y = 0) :
+    (Gen.C11.alv_p1x a b cx cy lx l0y l1y 0 - cx) ^ 2 / a ^ 2 + (Gen.C11.alv_p1y a b cx cy lx l0y l1y 0 - cy) ^ 2 / b ^ 2 = 1 := by
+  have := (alv_candidates_on_both a b cx cy lx l0y l1y 0 ha hb (by rw [h0]; ring)).1.1
+  exact this
+
 end arcline
 
 /-! ## Line.point_to_t -/
